@@ -15,6 +15,7 @@ fn dispatch(case: &Value) -> Value {
         "opseq" => opseq::run_opseq(case),
         "pauli" => pauli::run_pauli(case),
         "pauli_exp" => pauli::run_pauli_exp(case),
+        "trotter" => pauli::run_trotter(case),
         "sched" => sched(case),
         other => json!({"r": "harness_error", "e": format!("unknown op {}", other)}),
     }
